@@ -103,4 +103,22 @@ def run(ck):
         ck.ok("D5.append-at-size", incs[0].where(), "size_ is incremented once")
     else:
         ck.violation("D5.append-at-size", "D5|IdleConnList::push|size-update", ph.where(), "size_ is updated %d time(s) in push()" % len(incs))
+    ck.rule("D6 checkTimeouts (the sweep that lets stalled connections expire): the loop over the descriptor table ends only when the index has passed Biggest_FD, the "
+            "highest open descriptor (fd_open: `if (fd > Biggest_FD) Biggest_FD = fd`), i.e. the last loop test established Biggest_FD < fd; the index starts at 0 and only "
+            "moves by ++. A bound of `fd < Biggest_FD` never expires the connection holding the highest descriptor: it stays open for ever")
+    ct = facts.fn("checkTimeouts")
+    cfl = ck.flow(ct)
+    loops = [b for b in ct.blocks.values() if (b.get("term") or {}).get("k") in ("ForStmt", "WhileStmt") and "Biggest_FD" in E.mentions(b["term"]["c"])]
+    ck.need(len(loops) == 1, "C08: checkTimeouts has no single loop bounded by Biggest_FD")
+    idx = [n["d"] for n in E.walk(loops[0]["term"]["c"]) if n.get("k") == "ref" and n.get("dk") == "local"]
+    ck.need(len(set(idx)) == 1, "C08: checkTimeouts loop index not identified")
+    FD = idx[0]
+    moves = [ev for b in ct.blocks.values() for ev in b["ev"] if ev.get("e") == "asg" and E.m_is_ref(FD)(ev.get("lhs"))]
+    if moves and all((ev.get("op") == "=" and E.const(ev.get("rhs")) == 0) or ev.get("op") == "++" for ev in moves):
+        ck.ok("D6.timeout-sweep-complete", ct.where(), "checkTimeouts: %s starts at 0 and only moves by ++" % FD)
+    else:
+        ck.violation("D6.timeout-sweep-complete", "D6|checkTimeouts|index-updates", ct.where(), "checkTimeouts: the descriptor index is set by %s" % sorted({ev.get("op") + E.key(ev.get("rhs")) for ev in moves}))
+    passed = E.m_cmp("<", E.M(lambda t: "Biggest_FD" in E.mentions(t) and E.strip(t).get("k") == "ref", "Biggest_FD"), E.m_is_ref(FD))
+    ck.require_fact("D6.timeout-sweep-complete", cfl, ev_exit(), passed, True, "function exit", why="(descriptors up to and including Biggest_FD must be visited)")
+
     ck.assume("leak freedom over job lifetimes/abort histories and liveness are not decided; only the fd_table bookkeeping pairs and the close sequence")
